@@ -664,3 +664,30 @@ func delegatedReturnsOK(f *ssa.Function, isProve func(*ssa.Call) bool, depth int
 	}
 	return ""
 }
+
+// importRule re-runs check id and imports only the obligations of one of its rules (and that rule's violations), re-labelled.
+func importRule(p *core.Program, r *core.Report, as, id, rule, why string) {
+	chk, ok := Registry[id]
+	if !ok {
+		return
+	}
+	sr := core.NewReport(id, r.Tier)
+	chk.Run(p, sr)
+	nOK, nBad := 0, 0
+	for _, ob := range sr.Obs {
+		if ob.Rule != rule {
+			continue
+		}
+		if ob.Status == core.OK {
+			nOK++
+			continue
+		}
+		nBad++
+		ob.Rule = as
+		ob.Construct = id + "/" + ob.Construct
+		r.Obs = append(r.Obs, ob)
+	}
+	if nBad == 0 {
+		r.OK(as, id+" "+rule+": imported obligations", "-", "%d obligation(s) hold (%s)", nOK, why)
+	}
+}
